@@ -173,6 +173,12 @@ def contains(I, container, item):
         mm = I.registry.get("method:%s.contains" % container.cls)
         if mm is not None:
             return mm(I, [container, item], {})
+    if isinstance(container, Obj) and container.kind == "seq" and "at" in I.heap[container.oid]:
+        p = I.heap[container.oid]
+        if isinstance(item, Fl):
+            return z3.Not(forall_index(I, "notin#%d#%d" % (container.oid, I.version), z3.IntVal(0), p["len"],
+                                       lambda i: lift_fl(p["at"](i)).v != item.v))
+        raise Unsupported("membership of %r in a symbolic sequence" % (item,))
     if isinstance(container, (list, tuple)):
         res = False
         for x in container:
@@ -413,6 +419,10 @@ def call_builtin(I, name, args, kwargs):
             return In(len(a))
         if isinstance(a, Obj) and a.kind == "seq":
             return In(I.heap[a.oid]["len"])
+        if isinstance(a, Obj) and a.kind == "objmap" and I.heap[a.oid].get("keyed_list"):
+            n = I.int("len_keyed_list")           # number of rows of a keyed list: some non-negative integer
+            I.assume(n >= 0)
+            return In(n)
         raise Unsupported("len(%r)" % (a,))
     if name in ("min", "max") and len(args) == 2:
         a, b = lift_fl(args[0]), lift_fl(args[1])
@@ -507,6 +517,8 @@ def isinstance_(I, x, c):
         return False
     if isinstance(x, Obj) and x.kind == "rec":
         return is_subclass(x.cls, cname)
+    if isinstance(x, Tm) and cname in ("datetime", "datetime.datetime"):
+        return True
     if isinstance(x, (Fl, In)):
         if cname == "Number":
             return True
